@@ -302,6 +302,26 @@ def check(case):
                 lab.append("has_" + nm)
     if not (A == keepA).all():
         raise Violation("input_modified", "ANM modified the adjacency it was given")
+    if p >= 2 and rows != G.transpose(rows) and not case.get("edit_after_build") and len(case["calls"]) % 2 == 0:
+        # the caller turns every edge of its matrix round IN PLACE and builds a second model from the same array object:
+        # that model is defined by what the array holds now (its parents are the first model's children)
+        A[...] = A.T.copy()
+        rows2 = G.rows_from_matrix(A)
+        pa2 = [sorted(G.bits(x)) for x in G.transpose(rows2)]
+        noises2 = [Recorder(5000 + i, "fresh") for i in range(p)]
+        anm2 = must(lib(sempler.ANM, A, [None if not pa2[i] else (lambda Xb: np.tanh(np.asarray(Xb, dtype=float)).sum(axis=1)) for i in range(p)],
+                        noises2), "ANM(same array object, edges reversed in place)")
+        X2 = np.asarray(must(lib(anm2.sample, n), "sample of the second model"))
+        logs = [_rec(f).log for f in anm2.noise_distributions]
+        if X2.shape != (n, p):
+            raise Violation("bad_shape", "second model: sample of shape %r" % (X2.shape,))
+        for i in range(p):
+            f = np.tanh(X2[:, pa2[i]]).sum(axis=1) if pa2[i] else 0.0
+            if not any(_close(X2[:, i] - f, a) for a in logs[i]):
+                raise Violation("row_equation_violated", "a second ANM built from the same array object after the caller reversed all edges "
+                                "in place: variable %d (parents %s in the array as it is now) is not assignment + noise; A=%s"
+                                % (i, pa2[i], A.tolist()))
+        lab.append("second_model_same_array")
     if asym:
         lab.append("asym_multi_parent")
     if depth2:
